@@ -137,6 +137,9 @@ type Explorer struct {
 	OutGuard  bool // treat bytes on fd 1/2 as violation (C17)
 	NoState   bool // skip CheckState (when another job already does it)
 	Quiet     bool // no samples
+	// After runs once the fixpoint is reached (deferred multi-root work); a violation
+	// it returns is attributed to the path it names.
+	After func(e *Explorer) *Found
 	SampleN   int
 	recs      []stateRec
 	seen      map[[16]byte]int32
@@ -358,8 +361,23 @@ func (e *Explorer) Run() *Found {
 	}
 	e.St.Exhaustive = true
 	e.St.DistinctObs = len(e.obs)
+	if e.After != nil {
+		if f := e.After(e); f != nil {
+			e.St.Exhaustive = false
+			return f
+		}
+	}
 	return nil
 }
+
+// HasKey reports whether a state with this canonical key was visited.
+func (e *Explorer) HasKey(k string) bool {
+	_, ok := e.seen[hash16(k)]
+	return ok
+}
+
+// Rebuild returns a fresh instance in the state reached by path.
+func (e *Explorer) Rebuild(path []Op) Inst { return e.replay(path) }
 
 type observer interface{ Obs() string }
 
